@@ -161,7 +161,7 @@ def initItems (cur : Option Name) : PState → List InitItem → Except ParseErr
 
 /-- set the relocation labels of an already created datum -/
 def setUses (gs : List Obj) (s : Sym) (uses : List Sym) : List Obj :=
-  updFirst (fun o => o.sym == s) (fun o => { o with uses := uses }) gs
+  updFirst (fun o => o.sym == s && !o.isFunction) (fun o => { o with uses := uses }) gs
 
 /-- one item of a function body (`current_fn = f`); returns the labels the body's code mentions -/
 def bodyItem (f : Name) (st : PState) : BodyItem → Except ParseErr (PState × List Sym)
@@ -171,7 +171,8 @@ def bodyItem (f : Name) (st : PState) : BodyItem → Except ParseErr (PState × 
   | .staticLocal tls ty init =>
     -- declaration(): `attr->is_static` → new_anon_gvar; `var->is_tls = attr->is_tls`
     let (st, s) := newAnon st ty init.isSome
-    let st := { st with globals := updFirst (fun o => o.sym == s) (fun o => { o with isTls := tls }) st.globals }
+    let st := { st with
+      globals := updFirst (fun o => o.sym == s && !o.isFunction) (fun o => { o with isTls := tls }) st.globals }
     match init with
     | none => pure (st, [s])
     | some items => do
